@@ -386,6 +386,24 @@ Definition write_step := write_step_pf payload_failure_fatal_after_header.
 Definition trunk_up_step (s : mux_st) : mux_st :=
   if m_closed s then s else set_tx (m_tx s) false s.
 
+(* SetDeadline / SetReadDeadline / SetWriteDeadline on a logical connection.  In the code they are stubs that
+   return nil: the Mux, its connections and the shared trunk are untouched (MuxConsts.deadlines_are_stubs, read
+   from mux.go on every run; [stubs] is that switch).  The variant that forwards the deadline to the shared trunk
+   is modelled by what an expired deadline does there: a read deadline makes the reader's trunk.Read fail with an
+   error that is not an end-of-file, a write deadline makes the trunk refuse bytes. *)
+Inductive dkind := DBoth | DRead | DWrite.
+Definition deadline_step (stubs : bool) (id : N) (k : dkind) (s : mux_st) : mux_st * result :=
+  match find_conn id (m_conns s) with
+  | None => (s, RNoConn)
+  | Some _ =>
+      if stubs then (s, ROk)
+      else match k with
+           | DRead => (reader_fail_step s, ROk)
+           | DWrite => (set_tx (m_tx s) true s, ROk)
+           | DBoth => (set_tx (m_tx (reader_fail_step s)) true (reader_fail_step s), ROk)
+           end
+  end.
+
 Definition conn_close_step (id : N) (s : mux_st) : mux_st :=
   set_conns (upd_conn id c_unmap (m_conns s)) s.
 
@@ -395,6 +413,7 @@ Inductive event :=
 | EvReadB (id : N) (pick : bool) (blen bcap : N)   (* Read with a buffer of length blen, capacity bcap *)
 | EvOpen (id : N)
 | EvStaleClose (id : N)   (* Close on a stale handle of id, once more *)
+| EvDeadline (id : N) (k : dkind)   (* Set[Read|Write]Deadline on the connection, with a deadline that expires *)
 | EvWrite (id : N) (buf : bytes) (cut : option N)
 | EvClose
 | EvConnClose (id : N)
@@ -409,6 +428,7 @@ Definition step_mp (mp : N) (s : mux_st) (e : event) : mux_st * result :=
   | EvReadB id pick blen bcap => read_buf_step id pick blen bcap s
   | EvOpen id => open_step open_closes_on_closed id s
   | EvStaleClose id => stale_close_step close_checks_identity id s
+  | EvDeadline id k => deadline_step deadlines_are_stubs id k s
   | EvWrite id buf cut => write_step mp id buf cut s
   | EvClose => (do_close s, ROk)
   | EvConnClose id => (conn_close_step id s, ROk)
@@ -429,6 +449,22 @@ Definition step := step_mp max_payload_size.
 Definition run := run_mp max_payload_size.
 
 (* the same machine with the switches read from the source given explicitly (for the refuted variants) *)
+Definition step_var4 (closes guarded pfatal stubs : bool) (mp : N) (s : mux_st) (e : event) : mux_st * result :=
+  match e with
+  | EvOpen id => open_step closes id s
+  | EvStaleClose id => stale_close_step guarded id s
+  | EvWrite id buf cut => write_step_pf pfatal mp id buf cut s
+  | EvDeadline id k => deadline_step stubs id k s
+  | _ => step_mp mp s e
+  end.
+Fixpoint run_var4 (closes guarded pfatal stubs : bool) (mp : N) (s : mux_st) (evs : list event) : mux_st * list (event * result) :=
+  match evs with
+  | [] => (s, [])
+  | e :: r =>
+      let (s1, o) := step_var4 closes guarded pfatal stubs mp s e in
+      let (s2, tr) := run_var4 closes guarded pfatal stubs mp s1 r in
+      (s2, (e, o) :: tr)
+  end.
 Definition step_var (closes guarded pfatal : bool) (mp : N) (s : mux_st) (e : event) : mux_st * result :=
   match e with
   | EvOpen id => open_step closes id s
